@@ -86,6 +86,44 @@ def form_case(ctx, form):
     ctx.record({"form": form}, nontrivial)
 
 
+TRUTHY = ("yes", "true", "1", "true()", "y")
+
+
+def flat_with_repeat(form) -> bool:
+    """Does the sheet mark a group `flat` that sits inside a repeat or contains one?"""
+    rows = form.get("survey", []) if isinstance(form, dict) else []
+    stack = []   # [kind, flat?]
+    hit = False
+    for r in rows:
+        t = str(r.get("type", "")).strip().lower().replace("_", " ")
+        if t.startswith("begin"):
+            kind = "repeat" if "repeat" in t else "group"
+            flat = kind == "group" and str(r.get("flat", "")).strip().lower() in TRUTHY
+            if flat and any(k == "repeat" for k, _ in stack):
+                hit = True
+            if kind == "repeat" and any(f for _, f in stack):
+                hit = True
+            stack.append([kind, flat])
+        elif t.startswith("end") and stack:
+            stack.pop()
+    return hit
+
+
+def match_flat_in_repeat(failure) -> bool:
+    form = (failure.case or {}).get("form", {})
+    return failure.kind in ("duplicate-sibling", "dangling-ref", "duplicate-bind", "duplicate-control-ref") and flat_with_repeat(form)
+
+
+FLAT_IN_REPEAT = {"survey": [
+    {"type": "begin repeat", "name": "t", "label": "T"},
+    {"type": "text", "name": "q2", "label": "Q"},
+    {"type": "begin group", "name": "q2", "label": "G", "flat": "true"},
+    {"type": "text", "name": "u", "label": "U"},
+    {"type": "end group"},
+    {"type": "end repeat"},
+]}
+
+
 def include_run(ctx, main, inc):
     """Build main + included section with builder.create_survey(sections=…) and evaluate the oracle."""
     from types import SimpleNamespace
@@ -139,6 +177,7 @@ def include_case(ctx, rng):
 
 def explore(ctx, factor, bs):
     rng = ctx.rng
+    form_case(ctx, FLAT_IN_REPEAT)  # directed case of the open finding C02-flat-group-in-repeat
     for _ in range(ctx.pick(40, 600) * factor):
         include_case(ctx, rng)
     n = ctx.pick(1200, 30000) * factor
@@ -179,4 +218,4 @@ def replay(ctx, payload, bs):
 
 
 def main(argv):
-    return vcore.run_check(PROP, explore, RULE, matchers={}, replay=replay, argv=argv)
+    return vcore.run_check(PROP, explore, RULE, matchers={"C02-flat-group-in-repeat": match_flat_in_repeat}, replay=replay, argv=argv)
